@@ -350,6 +350,11 @@ class All(OrderIndicator):
                     sub_elements, schema, context=context
                 )
 
+        # Occurrences beyond an element's maxOccurs are not consumed: hand
+        # them back so that the caller reports them instead of dropping them.
+        for sub_elements in values.values():
+            xmlelements.extend(sub_elements)
+
         if self._consume_other and xmlelements:
             result["_raw_elements"] = list(xmlelements)
             xmlelements.clear()
